@@ -16,4 +16,9 @@ try:
     PARTS += mp_parts.parts("C10")
 except ImportError:
     pass
+try:
+    from . import mprerr_parts
+    PARTS += mprerr_parts.parts()
+except ImportError:
+    pass
 _compose.assemble(globals(), PARTS, RULE, EXPLANATION, ASSUMPTIONS)
